@@ -121,6 +121,28 @@ class TlcResult:
         if res:
             yield res
 
+    def printed_unique(self, tag):
+        """printed() for simulation runs: random behaviours revisit states, so identical lines are parsed once
+        (the duplicates are dropped on the raw text, before they cost ~20 KB of Python objects each)."""
+        pref = '<<"%s", "' % tag
+        seen = set()
+        res = []
+        out = self.out
+        n = len(out)
+        start = 0
+        while start < n:
+            end = out.find("\n", start)
+            if end < 0:
+                end = n
+            if out.startswith(pref, start) and out.endswith('">>', start, end):
+                raw = out[start + len(pref):end - 3]
+                h = hashlib.blake2b(raw.encode(), digest_size=12).digest()
+                if h not in seen:
+                    seen.add(h)
+                    res.append(json.loads(raw.replace('\\"', '"').replace("\\\\", "\\")))
+            start = end + 1
+        return res
+
     def coverage_zero_actions(self):
         """Names of actions whose coverage line reports 0 taken (needs coverage=True)."""
         zero = []
